@@ -248,3 +248,38 @@ M("C20", "V", "loader takes the first server whatever the name", CONFIG, "      
 M("C20", "V", "args default shared with command", CONFIG, "            args=server_config.get(\"args\", []),\n", "            args=server_config.get(\"args\", [server_config[\"command\"]]),\n", "R2")
 M("C20", "B", "unpack with a named timeout", SRVMGR, "                server_params, _ = await load_config(config_file, sname)\n", "                server_params, _timeout = await load_config(config_file, sname)\n")
 M("C20", "B", "rename in CLI", MAIN, "        server_params, _ = await load_config(config_path, server_name)\n", "        server_params, _unused = await load_config(config_path, server_name)\n")
+
+# ------------------------------------------------------------------------------ C09
+CONTENT = "chuk_mcp/protocol/types/content.py"
+COMPLETIONS = "chuk_mcp/protocol/messages/completions/send_messages.py"
+SAMPLING = "chuk_mcp/protocol/messages/sampling/send_messages.py"
+M("C09", "V", "Literal case removed (pre-fix code)", PBASE, "        if origin is Literal:\n            if value in get_args(expected):\n                return value\n            raise ValidationError(\n                f\"value must be one of {get_args(expected)}\",\n                current_path,\n                \"literal_error\",\n            )\n", "", "R3")
+M("C09", "V", "exact-type pass removed (pre-fix code)", PBASE, "            for union_type in non_none_args:\n                if inspect.isclass(union_type) and type(value) is union_type:\n                    return value\n", "", "R5")
+M("C09", "V", "Optional[Union] collapses to first member (pre-fix code)", PBASE, "            return args[0] if len(args) == 1 else Union[args]\n", "            return args[0]\n", "R5")
+M("C09", "V", "CompletionResult delegation removed (pre-fix code)", COMPLETIONS, "    def model_post_init(self, __context) -> None:\n        \"\"\"Pydantic never calls __post_init__; enforce the same invariant there.\"\"\"\n        self.__post_init__()\n", "", "R1")
+M("C09", "V", "new __post_init__ invariant on TextContent", CONTENT, "    text: str\n    \"\"\"The text content of the message.\"\"\"\n", "    text: str\n    \"\"\"The text content of the message.\"\"\"\n\n    def __post_init__(self):\n        if len(self.text) > 1000000:\n            raise ValueError(\"text too long\")\n", "R1")
+M("C09", "V", "constraint keyword the fallback does not know", CONTENT, "    priority: Optional[float] = Field(None, ge=0.0, le=1.0)\n", "    priority: Optional[float] = Field(None, ge=0.0, le=1.0, multiple_of=0.25)\n", "R2")
+M("C09", "V", "fallback stops enforcing bounds", PBASE, "                        if field is not None:\n                            _check_constraints(name, validated_value, field.kwargs)  # type: ignore[attr-defined]\n", "", "R2")
+M("C09", "V", "Optional without default", CONTENT, "    annotations: Optional[Annotations] = None\n    \"\"\"Optional annotations for the client.\"\"\"\n\n    model_config = {\"extra\": \"allow\"}\n\n\nclass ImageContent", "    annotations: Optional[Annotations]\n    \"\"\"Optional annotations for the client.\"\"\"\n\n    model_config = {\"extra\": \"allow\"}\n\n\nclass ImageContent", "R4")
+M("C09", "V", "audio tag widened to str", CONTENT, "    type: Literal[\"audio\"] = \"audio\"\n", "    type: str = \"audio\"\n", "R3")
+M("C09", "V", "image tag also accepts audio", CONTENT, "    type: Literal[\"image\"] = \"image\"\n", "    type: Literal[\"image\", \"audio\"] = \"image\"\n", "R3")
+M("C09", "V", "dispatcher no longer calls model_post_init", PBASE, "            model_post_init = getattr(self, \"model_post_init\", None)\n            if callable(model_post_init):\n                model_post_init(None)\n", "", "R1")
+M("C09", "V", "envelope id typed str-first", JSONRPC, "RequestId = Union[int, str]\n", "RequestId = Union[str, int, float]\n", "R5")
+M("C09", "B", "new field with a default", CONTENT, "    text: str\n    \"\"\"The text content of the message.\"\"\"\n", "    text: str\n    \"\"\"The text content of the message.\"\"\"\n\n    language: Optional[str] = None\n")
+M("C09", "B", "non-validating __post_init__", CONTENT, "    text: str\n    \"\"\"The text content of the message.\"\"\"\n", "    text: str\n    \"\"\"The text content of the message.\"\"\"\n\n    def __post_init__(self):\n        pass\n")
+
+# ------------------------------------------------------------------------------ C10
+TYPES_TOOLS = "chuk_mcp/protocol/types/tools.py"
+ELICIT = "chuk_mcp/protocol/types/elicitation.py"
+TOOL_PY = "chuk_mcp/protocol/messages/tools/tool.py"
+M("C10", "V", "by_alias dropped in tool_result_to_dict (pre-fix code)", TYPES_TOOLS, "        return result.model_dump(exclude_none=True, by_alias=True)\n", "        return result.model_dump(exclude_none=True)\n", "R1")
+M("C10", "V", "by_alias dropped in elicitation (pre-fix code)", ELICIT, "            \"params\": params.model_dump(exclude_none=True, by_alias=True),\n", "            \"params\": params.model_dump(exclude_none=True),\n", "R1")
+M("C10", "V", "extra=ignore on one class", TOOL_PY, "model_config = {\"extra\": \"allow\"}", "model_config = {\"extra\": \"ignore\"}", "R2")
+M("C10", "V", "meta without alias", TOOL_PY, "    meta: Optional[Dict[str, Any]] = Field(default=None, alias=\"_meta\")\n", "    meta: Optional[Dict[str, Any]] = None\n", "R3")
+M("C10", "V", "fallback drops leftover keys", PBASE, "            # Add extra fields (allow by default)\n            values.update(data)\n", "", "R2")
+M("C10", "V", "fallback ignores by_alias on output", PBASE, "                if by_alias and key in self.__class__.__field_aliases__:\n                    output_key = self.__class__.__field_aliases__[key]\n", "", "R3")
+M("C10", "V", "envelope gets an aliased member", JSONRPC, "class JSONRPCRequest(McpPydanticBase):\n    \"\"\"A request that expects a response.\"\"\"\n\n    jsonrpc: Literal[\"2.0\"] = \"2.0\"\n", "class JSONRPCRequest(McpPydanticBase):\n    \"\"\"A request that expects a response.\"\"\"\n\n    jsonrpc: Literal[\"2.0\"] = \"2.0\"\n    meta: Optional[Dict[str, Any]] = Field(default=None, alias=\"_meta\")\n",
+  "R1", more=[(JSONRPC, "from chuk_mcp.protocol.mcp_pydantic_base import McpPydanticBase, ConfigDict\n", "from chuk_mcp.protocol.mcp_pydantic_base import McpPydanticBase, ConfigDict, Field\n")])
+M("C10", "V", "new untyped dump site", "chuk_mcp/protocol/messages/tools/send_messages.py", "    return ToolResult.model_validate(response)\n", "    out = ToolResult.model_validate(response)\n    logging_copy: Any = out\n    _ = logging_copy.model_dump()\n    return out\n", "R1",
+  more=[("chuk_mcp/protocol/messages/tools/send_messages.py", "from typing import", "from typing import Any as _AnyUnused, ")])
+M("C10", "B", "exclude_none added", "chuk_mcp/server/protocol_handler.py", "            \"serverInfo\": self.server_info.model_dump(),\n", "            \"serverInfo\": self.server_info.model_dump(exclude_none=True),\n")
